@@ -235,6 +235,7 @@ static void* worker(void* p) {
         case 5: w->olds[k] = do_and(w->inst, ~((U64)1 << ((w->tid * N + k) % (FL_BITS)))); break;
         case 6: w->olds[k] = do_xor(w->inst, (U64)1 << (w->tid % (FL_BITS))); break;
         case 7: do_lock(w->inst, 1); break;
+        case 8: if (w->tid % 2) do_incr(w->inst, 1); else (void)do_add(w->inst, 1); break;   /* fetch-add against compare-exchange loops on one cell */
         }
     }
     return NULL;
@@ -268,7 +269,9 @@ int main(int argc, char** argv) {
 
 BUILDS = {'gcc-O2': ['gcc', '-O2', '-w'], 'clang-O2': ['clang', '-O2', '-w'], 'gcc-O0': ['gcc', '-O0', '-w'],
           'clang-tsan': ['clang', '-O1', '-g', '-w', '-fsanitize=thread'],
-          'gcc-O2-ndebug': ['gcc', '-O2', '-w', '-DNDEBUG'], 'clang-tsan-ndebug': ['clang', '-O1', '-g', '-w', '-fsanitize=thread', '-DNDEBUG']}
+          'gcc-O2-ndebug': ['gcc', '-O2', '-w', '-DNDEBUG'], 'clang-tsan-ndebug': ['clang', '-O1', '-g', '-w', '-fsanitize=thread', '-DNDEBUG'],
+          # the big-endian code paths (mutex-based read-modify-write) under contention
+          'gcc-O2-be': ['gcc', '-O2', '-w', '-DWASM_ENDIAN=1'], 'clang-O2-be': ['clang', '-O2', '-w', '-DWASM_ENDIAN=1']}
 _bin = {}
 
 
@@ -292,7 +295,7 @@ def stress_binary(build, imported=False):
     return _bin[key]
 
 
-MODES = ['add', 'sub', 'xchg', 'cas-incr', 'or', 'and', 'xor', 'cas-lock']
+MODES = ['add', 'sub', 'xchg', 'cas-incr', 'or', 'and', 'xor', 'cas-lock', 'add-vs-cas']
 
 
 def run_stress(case):
@@ -373,6 +376,11 @@ def run_stress(case):
                 want &= ~(1 << ((t * N + k) % bits))
         if final != want & M:
             return 'lost-update', 'and flavour %d: final %x expected %x' % (fl, final, want & M), inter
+    elif mode == 8:
+        inter = True
+        if final != (init + total) & M:
+            return 'lost-update', ('fetch-add against compare-exchange increments, flavour %d T=%d N=%d: final %x, expected %x: the two '
+                                   'kinds of read-modify-write do not exclude each other' % (fl, T, N, final, (init + total) & M)), inter
     elif mode == 7:
         inter = True
         if counter != total or final != 0:
@@ -394,7 +402,7 @@ def stress_task(wid, seed, params):
     for ci in range(params['ncases']):
         ch = Chooser(seed * 1000003 + ci)
         fl = (wid + ci) % len(SHAPES)
-        mode = (wid // 7 + ci // 7 + ch.below(8)) % 8
+        mode = (wid // 7 + ci // 7 + ch.below(9)) % 9
         bits = SHAPES[fl][2] * 8
         T = ch.pick((2, 3, 4, 8))
         cap = (1 << bits) - 2
@@ -449,11 +457,11 @@ def plan(tier, seed):
     if tier == 'quick':
         seq = [{'maker': 'c16_seq', 'ncases': 12, 'ccs': ['gcc-O0', 'clang-O2', 'gcc-O2', 'clang-O0', 'clang-O1-san', 'gcc-O1-be', 'clang-O2-be'], 'nsteps': 160,
                 'shrink_budget': 20, 'reduce_budget': 10} for _ in range(8)]
-        st = [{'stress': True, 'ncases': 14, 'builds': ['gcc-O2', 'clang-O2', 'clang-tsan', 'gcc-O0', 'gcc-O2-ndebug', 'clang-tsan-ndebug']} for _ in range(8)]
+        st = [{'stress': True, 'ncases': 14, 'builds': ['gcc-O2', 'clang-O2', 'clang-tsan', 'gcc-O0', 'gcc-O2-ndebug', 'clang-tsan-ndebug', 'gcc-O2-be', 'clang-O2-be']} for _ in range(8)]
         return seq + st
     seq = [{'maker': 'c16_seq', 'ncases': 200, 'ccs': ['gcc-O0', 'clang-O2', 'gcc-O2', 'clang-O0', 'clang-O1-san', 'gcc-O3', 'clang-O3', 'gcc-O1-be', 'clang-O2-be', 'gcc-O0-be'],
             'nsteps': 400, 'shrink_budget': 30, 'reduce_budget': 20} for _ in range(24)]
-    st = [{'stress': True, 'ncases': 300, 'builds': ['gcc-O2', 'clang-O2', 'clang-tsan', 'gcc-O0', 'gcc-O2-ndebug', 'clang-tsan-ndebug']} for _ in range(16)]
+    st = [{'stress': True, 'ncases': 300, 'builds': ['gcc-O2', 'clang-O2', 'clang-tsan', 'gcc-O0', 'gcc-O2-ndebug', 'clang-tsan-ndebug', 'gcc-O2-be', 'clang-O2-be']} for _ in range(16)]
     return seq + st
 
 
